@@ -188,6 +188,9 @@ type BrokerPlan struct {
 	Faults        []BrokerFault  `json:"faults,omitempty"`
 	NoRoute       bool           `json:"no_route,omitempty"` // do not route client publishes to subscribers
 	AnswerDelayMs int64          `json:"answer_delay_ms,omitempty"`
+	// ReadsOnly > 0: the broker reads this many bytes of every connection and then never reads again
+	// (the TCP window stays closed: the gateway's writes block and time out)
+	ReadsOnly int `json:"reads_only,omitempty"`
 	// Retained messages: sent (retain=1) to a session whenever it subscribes with a matching filter;
 	// Early ones before the SUBACK (MQTT 3.1.1 §3.8.4 allows PUBLISH before SUBACK).
 	Retained []BrokerRetained `json:"retained,omitempty"`
